@@ -166,7 +166,11 @@ class Rules:
                 ty = text[lt + 1:gt].strip()
                 lp = text.index("(", gt)
                 rp = match_close(text, lp)
-                text = text[:m.start()] + "((" + ty + ")(" + text[lp + 1:rp] + "))" + text[rp + 1:]
+                if kw == "const_cast" and ty.endswith("&"):
+                    # const_cast<T &>(e): only removes a qualifier - no operation in C
+                    text = text[:m.start()] + "(" + text[lp + 1:rp] + ")" + text[rp + 1:]
+                else:
+                    text = text[:m.start()] + "((" + ty + ")(" + text[lp + 1:rp] + "))" + text[rp + 1:]
                 self._count("R2:" + kw, 1)
         # functional casts T(e) for builtin arithmetic types
         pat = re.compile(r"(?<![\w>\.\)])((?:u?int(?:8|16|32|64)_t|size_t|uint_fast32_t|int_fast32_t|unsigned|double|float|intptr_t|ssize_t|int|long))\s*\((?!\s*\*)")
